@@ -7,6 +7,7 @@ import SugarModel.Model.ListCmd
 import SugarModel.Model.HashCmd
 import SugarModel.Model.SetCmd
 import SugarModel.Model.ConnCmd
+import SugarModel.Model.ZSetCmd
 namespace Sugar
 
 abbrev Handler := Ctx → List Bytes → Prog Res
@@ -38,7 +39,16 @@ def handlerTable : List (Bytes × Handler) := [
   (b "sismember", handleSIsMember), (b "smembers", handleSMembers), (b "smismember", handleSMIsMember),
   (b "smove", handleSMove), (b "spop", handleSPop), (b "srandmember", handleSRandMember), (b "srem", handleSRem),
   (b "sunion", handleSUnion false), (b "sunionstore", handleSUnion true),
-  (b "select", handleSelect), (b "swapdb", handleSwapDB), (b "ping", handlePing), (b "echo", handleEcho)]
+  (b "select", handleSelect), (b "swapdb", handleSwapDB), (b "ping", handlePing), (b "echo", handleEcho),
+  (b "zadd", handleZAdd), (b "zcard", handleZCard), (b "zcount", handleZCount),
+  (b "zdiff", handleZDiff false), (b "zdiffstore", handleZDiff true), (b "zincrby", handleZIncrBy),
+  (b "zinter", handleZCombine true false), (b "zinterstore", handleZCombine true true),
+  (b "zmpop", handleZMPop), (b "zmscore", handleZMScore), (b "zpopmax", handleZPop), (b "zpopmin", handleZPop),
+  (b "zrandmember", handleZRandMember), (b "zrank", handleZRank), (b "zrevrank", handleZRank),
+  (b "zrem", handleZRem), (b "zscore", handleZScore), (b "zremrangebylex", handleZRemRangeByLex),
+  (b "zremrangebyrank", handleZRemRangeByRank), (b "zremrangebyscore", handleZRemRangeByScore),
+  (b "zlexcount", handleZLexCount), (b "zrange", handleZRange), (b "zrangestore", handleZRangeStore),
+  (b "zunion", handleZCombine false false), (b "zunionstore", handleZCombine false true)]
 
 def lookupHandler (n : Bytes) : List (Bytes × Handler) → Option Handler
   | [] => none
